@@ -122,6 +122,20 @@ def _v(key, msg, **kw):
     return d
 
 
+def names_problem(stderr, api_outcome, api_exc, out_api, out_cli):
+    """"an error naming the problem": the exception class, or a recognisable part of its message (any 24 consecutive
+    characters of a message line, output directories normalised), appears on stderr."""
+    if api_outcome in stderr:
+        return True
+    err = stderr.replace(os.path.dirname(out_cli), "<DIR>")
+    for line in str(api_exc).replace(os.path.dirname(out_api), "<DIR>").splitlines():
+        line = line.strip()
+        for k in range(0, max(1, len(line) - 24), 8):
+            if len(line) >= 24 and line[k:k + 24] in err:
+                return True
+    return False
+
+
 def api_run(src, infmt, out, outfmt, many, allow):
     import iodata
 
@@ -245,7 +259,7 @@ def run_case(case):
                 else:
                     viols.append(_v("cli-failure-api-success", f"{tag}: CLI exit {r.returncode} but the API calls succeed; stderr: {r.stderr[-300:]}"))
             else:
-                if api_outcome not in r.stderr:
+                if not names_problem(r.stderr, api_outcome, api_exc, out_api, out_cli):
                     viols.append(_v("cli-error-not-named", f"{tag}: stderr does not name the problem ({api_outcome}): {r.stderr[-200:]}"))
                 if api_outcome in ("PrepareDumpError", "FileFormatError") or (api_outcome in ("LoadError", "FileNotFoundError") and not opts["m"]):
                     # pre-flight rejection (nothing could be written): the existing output must be untouched
